@@ -53,6 +53,11 @@ func runFault(c *hx.Ctx, seq *Seq, counts []int, K int) {
 			return "failed-store-at-window-end:retry-out-of-range"
 		case kind == "store" && check == "event-query-differs" && snapshotAfter(seq.Ops, opI):
 			return "failed-store:uncommitted-filter-state-persisted-by-snapshot"
+		case kind == "store" && staleWindow(enc):
+			// the failed store left next = N+1 in memory; a later revert of a window's last block then does not
+			// take the window-crossing path and the persisted window survives above the head (model:
+			// C05_crash_sync_needed)
+			return "failed-store:filter-off-by-one:revert-leaves-stale-persisted-window"
 		case staleWindow(enc):
 			return "revert-across-window:stale-persisted-window"
 		}
